@@ -16,6 +16,13 @@
 #include "parallel/Worker.hpp"
 #include "vsched.h"
 
+#ifdef VERIF_NATIVE
+// native stage: the same scenarios with real threads under the OS scheduler (ASan build, no interposition)
+extern "C" void vsched_begin(const unsigned char *, size_t) {}
+extern "C" vsched_stats vsched_end(void) { vsched_stats s; memset(&s, 0, sizeof s); return s; }
+void (*vsched_on_deadlock)(const vsched_stats *) = nullptr;
+#endif
+
 extern "C" size_t libcsd_verif_memalloc = 32768;
 
 namespace vh {
@@ -159,6 +166,66 @@ static void scenario_blocks(Src &s, const std::vector<uint8_t> &schedule) {
   snprintf(V.msg + strlen(V.msg), sizeof V.msg - strlen(V.msg), " [n=%zu cut=%lu threads=%d blocks=%u]", S.size(), p.cut, p.threads, parts);
 }
 
+// ------------------------------------------------------------------ C09, native stage: many tiny blocks, real threads
+// The deterministic scheduler pre-empts only at synchronisation calls, so an unsynchronised access of the
+// producer (e.g. growing the block vector outside the lock) is atomic under it.  Here the producer and
+// 1..16 workers run under the OS scheduler on 50..6000 blocks of one to a few strings - workers complete
+// blocks while the producer is still cutting and queueing - in an ASan build: oracle = image equal to the
+// single-thread image, every ID extracts, the extracted set is the input, no sanitizer report.
+static void scenario_blocks_native(Src &s) {
+  XorShift x(s.u32() + 99);
+  size_t n = 50 + s.below(s.pick({3, 1}) ? 6000 : 600);
+  std::vector<std::string> S;
+  std::string cur = "";
+  // sorted by construction: fixed-width counter with a short random tail
+  for (size_t i = 0; i < n; i++) {
+    char buf[40];
+    int tail = x.below(6);
+    int len = snprintf(buf, sizeof buf, "%06zu", i);
+    for (int q = 0; q < tail; q++) buf[len++] = (char)('a' + x.below(26));
+    buf[len] = 0;
+    S.push_back(buf);
+  }
+  Params p;
+  p.kind = K_BLOCKS;
+  p.overhead = (int[]){25, 10, 100, 0}[s.below(4)];
+  p.cut = 1 + s.below(48);
+  static const int th[] = {2, 4, 8, 16, 1, 3};
+  p.threads = th[s.below(6)];
+  Params p1 = p;
+  p1.threads = 1;
+  std::string ref;
+  { StringDictionary *d = build_dict(p1, S); ref = save_image(d); delete d; }
+  StringDictionary *d = build_dict(p, S);
+  std::string img = save_image(d);
+  if (img != ref) {
+    size_t at = 0;
+    while (at < img.size() && at < ref.size() && img[at] == ref[at]) at++;
+    fail("image-differs", "image built with " + std::to_string(p.threads) + " threads differs from the single-thread image (sizes " + std::to_string(img.size()) + "/" + std::to_string(ref.size()) + ", first difference at byte " + std::to_string(at) + ")");
+  }
+  if (!V.code) {
+    std::vector<std::string> got;
+    for (size_t id = 1; id <= n; id++) {
+      uint len = 0;
+      uchar *e = d->extract(id, &len);
+      if (!e) { fail("block-incomplete", "extract(" + std::to_string(id) + ") is NULL after the constructor returned"); break; }
+      got.emplace_back((char *)e, len);
+      delete[] e;
+    }
+    if (!V.code) {
+      std::sort(got.begin(), got.end(), ult);
+      if (got != S) fail("strings-lost", "the strings extracted from the blocks are not the input set");
+    }
+  }
+  uint32_t parts = 0;
+  if (img.size() >= 28) memcpy(&parts, img.data() + 24, 4);
+  V.blocks = (int)parts;
+  V.threads = p.threads + 1;
+  delete d;
+  V.nontrivial = parts >= 50;
+  snprintf(V.msg + strlen(V.msg), sizeof V.msg - strlen(V.msg), " [native n=%zu cut=%lu threads=%d blocks=%u]", n, p.cut, p.threads, parts);
+}
+
 // ------------------------------------------------------------------ entry
 int run_case(const uint8_t *data, size_t n, CaseCtx &ctx) {
   const std::string &P = cfg.prop;
@@ -175,8 +242,21 @@ int run_case(const uint8_t *data, size_t n, CaseCtx &ctx) {
     memset(&V, 0, sizeof V);
     Src s(data, head);
     alarm(60);  // scheduler lost control (something blocks outside the interposed primitives)
+#ifdef VERIF_NATIVE
+    {
+      Src sn(data, n);
+      scenario_blocks_native(sn);
+      // sanitizer reports of this child (a store into a freed vector buffer, ...) are events of the case
+      if (!V.code && ctx.asan_reports) {
+        std::string m = "sanitizer report during the parallel build";
+        for (auto &e : ctx.events) if (e.sig.compare(0, 5, "asan/") == 0) { m = e.sig + " " + e.msg.substr(0, 250); break; }
+        fail("asan", m);
+      }
+    }
+#else
     if (P == "C10") scenario_pool(s, schedule);
     else scenario_blocks(s, schedule);
+#endif
     send_verdict();
     _exit(0);
   }
@@ -205,6 +285,7 @@ int run_case(const uint8_t *data, size_t n, CaseCtx &ctx) {
   if (v.preemptions >= 3) ctx.labels.insert("preemptions_ge3");
   if (v.blocks >= 2) ctx.labels.insert("blocks_ge2");
   if (v.blocks >= 4) ctx.labels.insert("blocks_ge4");
+  if (v.blocks >= 1000) ctx.labels.insert("blocks_ge1000");
   if (v.notify_lost) ctx.labels.insert("notify_without_waiter");
   ctx.sample = std::string("{\"scenario\":\"") + (P == "C10" ? "pool" : "blocks") + "\",\"detail\":\"" + jesc(v.msg) + "\",\"threads\":" + std::to_string(v.threads) + ",\"sched_points\":" + std::to_string(v.points) + ",\"preemptions\":" + std::to_string(v.preemptions) + ",\"schedule_bytes\":" + std::to_string(schedule.size()) + "}";
   if (cfg.trace) real_err("CASE %s\n", ctx.sample.c_str());
